@@ -5,6 +5,12 @@ NOTES = ("Technique: machine-checked proof in Lean 4 of theorems about a hand-wr
 NOT_APPLICABLE_REASON = {}
 
 CLAIMS = {
+ "C18": {
+  "text": "Proved in Lean: the category of every argument error (index/slice out of bounds, key not found: User; collision limit, undefined identifier, slab not found: Fatal) from the table regenerated from errors.go; an uncategorised error from a caller-supplied component becomes External and categorised ones pass through; a rejected array request leaves array, allocation counter and effect log unchanged, so a history with rejected requests ends in the same state as the history without them. Tie: every rejected request in the array and map streams must show an empty net storage effect and unchanged dumps on the real code; failures injected into comparator / hash-input provider / ledger reads must surface as External and leave no trace.",
+  "design_ref": "DESIGN.md 7/C18",
+  "note": "Trusted: extractor's reading of errors.go (constructor -> category wrapper), cross-checked by errors.As on every error the harness sees. Map-side no-trace is by C02's refinement theorems; nested ancestors by C10's stream.",
+  "technique": "Lean 4 proof (decide over regenerated error table; no-op lemma on the request step) + fault-injection differential runs",
+ },
  "C03": {
   "text": "Lean theorems (storage level) prove that no operation other than a commit changes the ledger, that a successful commit followed by ANY commit-free history and a crash leaves a reopened storage showing exactly the commit-time view of every owned identifier, and that temporary-address slabs are never written, for every history. The container level is tied by correspondence: array model + storage state machine reproduce every decoded register after every commit and the reopened tree after every crash. Partial: the container-level theorem effects_complete and the codec round trip are validated by correspondence / C07, not yet proved here.",
   "design_ref": "DESIGN.md 7/C03",
